@@ -260,11 +260,69 @@ class C08Runner(LineRunner):
                 exit_status, self.line_no, self.cur["text"][:60]))
 
 
+import c07
+
+
+class C08Interactive(c07.C07Runner):
+    """the interactive (tty) path: job table, terminal hand-over, history database and log file
+    are in play; every started program must still see only 0,1,2 and the shell's table must be
+    the same at every prompt"""
+    prop = "C08"
+
+    def run(self):
+        self.fd_base = None
+        return c07.C07Runner.run(self)
+
+    def shell_env_extra(self):
+        return {}
+
+    def resolve(self, m, job):
+        c07.C07Runner.resolve(self, m, job)
+        fds = m.pup.fds
+        extra = sorted(fd for fd in fds if fd > 2)
+        if extra:
+            raise Violation("child_extra_fd", "%s (interactive session) started with extra descriptors %s (%s)" % (
+                m.name, extra, ", ".join(str(fds[fd]["link"])[-40:] for fd in extra)))
+        self.sim.probe("interactive_child_descriptors_checked")
+
+    def at_prompt(self):
+        c07.C07Runner.at_prompt(self)
+        t = {fd: l for fd, l in fd_snapshot(self.sim.shell_pid).items() if fd < CTL_FD_MIN}
+        if self.fd_base is None:
+            self.fd_base = t
+        elif t != self.fd_base:
+            leaked = sorted(fd for fd in t if fd not in self.fd_base)
+            lost = sorted(fd for fd in self.fd_base if fd not in t)
+            if leaked:
+                raise Violation("shell_fd_leak", "at the prompt the interactive shell holds extra descriptors %s (%s)" % (
+                    leaked, ", ".join(str(t[fd])[-40:] for fd in leaked)))
+            raise Violation("shell_fd_lost", "at the prompt the interactive shell lost descriptors %s" % lost)
+        else:
+            self.sim.probe("interactive_shell_table_unchanged_at_prompt")
+
+
+class C08Any:
+    """dispatches on the scenario shape: script histories or interactive sessions"""
+    prop = "C08"
+
+    def __new__(cls, sc, sched, keep_log=True):
+        if "ops" in sc:
+            return C08Interactive(sc, sched, keep_log)
+        return C08Runner(sc, sched, keep_log)
+
+    @classmethod
+    def reductions(cls, sc):
+        if "ops" in sc:
+            return c07.C07Runner.reductions(sc)
+        return C08Runner.reductions(sc)
+
+
 CONFIGS = {
-    "history": ({"max_cmds": 8}, 40),
+    "interactive": ({"max_actions": 16}, 12),
+    "history": ({"max_cmds": 8}, 32),
     "history_log": ({"max_cmds": 6, "log_file": True}, 10),
-    "rlimit": ({"max_cmds": 4, "rlimit": True}, 30),
-    "faults": ({"max_cmds": 5, "faults": True}, 20),
+    "rlimit": ({"max_cmds": 4, "rlimit": True}, 28),
+    "faults": ({"max_cmds": 5, "faults": True}, 18),
 }
 
 TIERS = {"quick": 1600, "thorough": 25000}
@@ -280,9 +338,15 @@ def make_case(seed, index):
         if r < acc:
             name = k
             break
-    sc = gen_scenario(rng, CONFIGS[name][0])
+    if name == "interactive":
+        sc = c07.gen_scenario(rng, {"max_actions": 16, "handler": True})
+        sc["prop"] = "C08"
+        sc["log_file"] = rng.chance(50)
+        sc["adversarial_picks"] = 100000
+    else:
+        sc = gen_scenario(rng, CONFIGS[name][0])
+        sc["adversarial_picks"] = rng.choice([0, 5, 20, 60, 150])
     sc["config"] = name
-    sc["adversarial_picks"] = rng.choice([0, 5, 20, 60, 150])
     return sc, rng
 
 
@@ -334,14 +398,16 @@ def signature(v):
 
 def run(args):
     return pbatch.run_check(
-        prop="C08", args=args, runner=C08Runner, make_case=make_case, runs=TIERS[args["tier"]],
+        prop="C08", args=args, runner=C08Any, make_case=make_case, runs=TIERS[args["tier"]],
         extra_cases=rlimit_sweep(),
         rule="one evaluation = one simulated history of 1..8 commands (pipelines of 1..6 puppets, every redirection form, "
              "builtins with and without redirection, command substitutions of puppets / pipelines / builtins / "
              "not-found commands, here-strings, functions, failing commands, background jobs), in some runs with "
              "`ulimit -n N` (N in 4..40) around one command or with the k-th pipe()/fork() failing; explicit sweep of "
-             "all N in 4..40; distinct = distinct canonical event-log hashes among runs with >= 2 commands",
-        nontrivial=lambda sc, res: len(sc["lines"]) >= 2 and res["steps"] >= 2,
+             "all N in 4..40; one configuration runs interactive sessions on a pty (job table, terminal hand-over, history "
+             "database, optional log file) with the same two oracles; distinct = distinct canonical event-log hashes among "
+             "runs with >= 2 commands",
+        nontrivial=lambda sc, res: (len(sc.get("lines", [])) >= 2 or len(sc.get("ops", [])) >= 5) and res["steps"] >= 2,
         signature=signature,
         components={
             "real": ["cicada binary: core.rs pipe/fork/dup2/close plumbing incl. capture pipes, builtins/utils.rs, ulimit builtin",
